@@ -60,6 +60,21 @@ pub fn check(a: &mut Allocator, n: NodePtr, t: &T, canon: &str, acc: &mut Acc) {
         Ok((_, Some(hs))) if hs[0] == rh => {}
         _ => bad("parse_triples hashes[0]", vec![]),
     }
+    // two objects back to back on one cursor: the second call starts at a non-zero position
+    {
+        let mut two = ser.clone();
+        two.extend_from_slice(&ser);
+        let mut c = Cursor::new(&two[..]);
+        for k in 1..=2u64 {
+            match tree_hash_from_stream(&mut c) {
+                Ok(h) if h == rh && c.position() == k * ser.len() as u64 => {}
+                o => {
+                    bad(&format!("tree_hash_from_stream (object {k} of 2 on one cursor, position {})", c.position()), o.map(|h| h.to_vec()).unwrap_or_default());
+                    break;
+                }
+            }
+        }
+    }
     acc.inc("cases");
 }
 
@@ -110,7 +125,7 @@ pub fn run(ctx: &Ctx) -> Report {
     rep.states = rep.evaluations;
     rep.transitions = rep.evaluations * 8;
     rep.traces = rep.evaluations;
-    rep.rule = format!("every tree of TREES({},A6), TREES({}, integers 0..40) and TREES({},A24) in sharing modes x atom representations (inline/heap/view), plus doubling; eight hash computations (op_sha256_tree and tree_hash_costed under both cost models, ObjectCache treehash, InternedTree::tree_hash, tree_hash_from_stream, parse_triples) compared with sha256(1||atom)/sha256(2||l||r) computed by the independent SHA-256. The python wheel's sha256_treehash is compared by the python leg. Every case is non-trivial (a hash is computed and compared).", ctx.pick(4, 5), ctx.pick(3, 4), ctx.pick(2, 3));
+    rep.rule = format!("every tree of TREES({},A6), TREES({}, integers 0..40) and TREES({},A24) in sharing modes x atom representations (inline/heap/view), plus doubling; eight hash computations (op_sha256_tree and tree_hash_costed under both cost models, ObjectCache treehash, InternedTree::tree_hash, tree_hash_from_stream (also as the second object on one cursor), parse_triples) compared with sha256(1||atom)/sha256(2||l||r) computed by the independent SHA-256. The python wheel's sha256_treehash is compared by the python leg. Every case is non-trivial (a hash is computed and compared).", ctx.pick(4, 5), ctx.pick(3, 4), ctx.pick(2, 3));
     rep.trusted_base.push("harness/src/refsha.rs (constants derived from primes, self-tested)".into());
     rep
 }
